@@ -285,7 +285,7 @@ def main():
                 "Coq 8.16.1 kernel and vm_compute (no native_compute)",
                 "axioms reported by Print Assumptions: " + (", ".join(axioms_used) if axioms_used else "none (all theorems closed under the global context)"),
                 "hand-written Gallina model tied to /repo by the correspondence run below (differential, not exhaustive)",
-                "harness/gen_tables.py (regenerates coq/gen/Tables.v from /repo sources on every run)",
+                "harness/gen_tables.py (fail-closed ast translator: regenerates coq/gen/Tables.v (unit tables) and coq/gen/Guards.v (the guard/dispatch structure of _check_period_consistency, calculate_add, calculate_divide, CorePopulation.__call__) from /repo sources on every run)",
                 "harness: generators, implementation driver, canonicalisation of observations, reading of the mismatch index list",
             ] + list(getattr(mod, "TRUSTED", [])),
             "theorems": b.theorems,
